@@ -14,6 +14,7 @@
 #include <stdlib.h>
 #include <string.h>
 #include <time.h>
+#include <sys/time.h>
 #include <unistd.h>
 #include <unordered_map>
 #include <unordered_set>
@@ -520,6 +521,7 @@ extern "C" void __asan_unpoison_memory_region(void const volatile* addr, size_t 
 }  // extern "C" (re-opened below)
 namespace xs {
 bool g_reuse_mode = false;
+uint64_t g_sim_entropy = 0x9e3779b97f4a7c15ull;
 int g_fill_byte = 0;   // plan field `fill`: contents of fresh (uninitialised) heap and stack memory; 0 = ASan's 0xbe / leftovers
 static std::unordered_map<size_t, std::vector<void*>> g_pool;
 static std::unordered_set<void*> g_pooled;
@@ -978,6 +980,26 @@ struct tm* xs_gmtime(const time_t* t) { virt_access(VL_TM, true, "gmtime", RA0);
 struct tm* xs_localtime(const time_t* t) { virt_access(VL_TM, true, "localtime", RA0); return localtime(t); }
 char* xs_ctime(const time_t* t) { virt_access(VL_TM, true, "ctime", RA0); return ctime(t); }
 char* xs_asctime(const struct tm* t) { virt_access(VL_TM, true, "asctime", RA0); return asctime(t); }
+// ---- clock, identity and entropy are simulated: logical time is the event count (1 event = 1 microsecond after a fixed
+// epoch), identities are fixed, "random" bytes come from a generator seeded by the plan.  A library that consults them
+// then behaves the same in every replay of a plan, and a result that depends on them differs between a fresh process
+// and a history (C16) or between the serial and the concurrent run (C17) instead of tripping the determinism gate.
+static uint64_t sim_now_us() { return 1700000000ull * 1000000ull + SH->events; }
+time_t xs_time(time_t* t) { SH->seam_calls++; time_t v = (time_t)(sim_now_us() / 1000000ull); if (t) *t = v; return v; }
+clock_t xs_clock(void) { SH->seam_calls++; return (clock_t)SH->events; }
+int xs_gettimeofday(struct timeval* tv, void*) { SH->seam_calls++; if (tv) { uint64_t u = sim_now_us(); tv->tv_sec = (time_t)(u / 1000000ull); tv->tv_usec = (suseconds_t)(u % 1000000ull); } return 0; }
+int xs_clock_gettime(clockid_t, struct timespec* ts) { SH->seam_calls++; if (ts) { uint64_t u = sim_now_us(); ts->tv_sec = (time_t)(u / 1000000ull); ts->tv_nsec = (long)(u % 1000000ull) * 1000; } return 0; }
+int xs_timespec_get(struct timespec* ts, int base) { xs_clock_gettime(0, ts); return base; }
+pid_t xs_getpid(void) { return 4242; }
+pid_t xs_getppid(void) { return 4241; }
+pthread_t xs_pthread_self(void) { return (pthread_t)(uintptr_t)(0x7f5100001000ull + 0x10000ull * (uint64_t)(t_task ? t_task->id : 0)); }
+static uint64_t sim_rand64() { uint64_t z = (xs::g_sim_entropy += 0x9e3779b97f4a7c15ull); z = (z ^ (z >> 30)) * 0xbf58476d1ce4e5b9ull; z = (z ^ (z >> 27)) * 0x94d049bb133111ebull; return z ^ (z >> 31); }
+void xs_arc4random_buf(void* buf, size_t n) { virt_access(VL_RAND, true, "arc4random", RA0); unsigned char* b = (unsigned char*)buf; for (size_t i = 0; i < n; i++) b[i] = (unsigned char)sim_rand64(); }
+uint32_t xs_arc4random(void) { virt_access(VL_RAND, true, "arc4random", RA0); return (uint32_t)sim_rand64(); }
+uint32_t xs_arc4random_uniform(uint32_t n) { virt_access(VL_RAND, true, "arc4random", RA0); return n ? (uint32_t)(sim_rand64() % n) : 0; }
+ssize_t xs_getrandom(void* buf, size_t n, unsigned) { xs_arc4random_buf(buf, n); return (ssize_t)n; }
+int xs_getentropy(void* buf, size_t n) { if (n > 256) { errno = EIO; return -1; } xs_arc4random_buf(buf, n); return 0; }
+
 // more libc entry points with process-wide hidden state (glibc manual: MT-Unsafe race:...)
 int xs_hcreate(size_t n) { virt_access(VL_HSEARCH, true, "hcreate", RA0); return hcreate(n); }
 void xs_hdestroy(void) { virt_access(VL_HSEARCH, true, "hdestroy", RA0); hdestroy(); }
